@@ -3,6 +3,7 @@ import ecache
 import eunits
 import ewrap
 import kinds
+import estep
 
 LEVEL = "E-WRAP over the quantification wrappers and dispatch tables"
 
@@ -25,5 +26,14 @@ def run(ctx):
     n = ecache.run(ctx, F, crates=("oxidd_rules_bdd::",))
     ctx.floor("E-CACHE", "cache-using algorithm functions", n, 10)
     ecache.check_hit_equals_miss(ctx, F, crates=("oxidd_rules_bdd::",))
-    ctx.not_decided = ("correctness of the recursion (set_pop, level skipping), restrict's polarity walk, "
-                       "simultaneity of substitution")
+    ctx.explain("E-TABLE.step: the recursive (Shannon expansion) step is interpreted on structured abstract operands -- inner nodes "
+                "with opaque or nested children in every relative level configuration (and every complement-tag "
+                "combination for BCDDs); recursive calls are builtins with the meaning of the callee, reduce yields a node. "
+                "The returned edge must denote the operation for all values of atoms and decision variables, the new "
+                "node must respect the variable order, and a cache entry must be valid for its key.")
+    ctx.explain("E-TABLE.step (quant, apply_quant, restrict): variable sets are positive cubes over up to three modelled "
+                "levels, restrict cubes carry both polarities (in canonical complement-edge form for BCDDs); the specification "
+                "folds and/or/xor over the cofactors of the listed variables resp. fixes the cube's literals.")
+    n = estep.run(ctx, F, kinds=("bdd", "bcdd"), parts=("quant", "restrict"))
+    ctx.floor("E-TABLE.step", "situations of the recursive step (quant, apply_quant, restrict)", n, 2500)
+    ctx.not_decided = "substitution (substitute / substitute_prepare beyond the unit discipline), behaviour under memory exhaustion"
